@@ -3,13 +3,35 @@ From Coq Require Import ZArith Bool List.
 Require Import JF.Base.F64 JF.Base.PyFloat JF.Model.Time.
 Import ListNotations.
 
+(** History of one Time object: construction, [Time.update] (an assignment of quotient and remainder),
+    copies (copy.copy / copy.deepcopy / pickle round trip: the value is kept). *)
+Inductive hstep :=
+| HNew (q r : Z)            (* Time(q, r) *)
+| HFrom (x : Z)             (* Time.from_float(x) *)
+| HUpd (q r : Z)            (* t.update(Time(q, r)) *)
+| HUpdAdd (q r d : Z)       (* t.update(Time(q, r) + d) *)
+| HUpdFrom (x : Z)          (* t.update(Time.from_float(x)) *)
+| HCopy.                    (* t = copy(t) | deepcopy(t) | pickle round trip *)
+
+Definition hstep_apply (t : time) (s : hstep) : time :=
+  match s with
+  | HNew q r | HUpd q r => mkTime (of_bits q) (of_bits r)
+  | HFrom x | HUpdFrom x => from_float (of_bits x)
+  | HUpdAdd q r d => time_add (mkTime (of_bits q) (of_bits r)) (of_bits d)
+  | HCopy => t
+  end.
+
+Definition hist_value (steps : list hstep) : time := fold_left hstep_apply steps (mkTime fnan fnan).
+
 Inductive tcase :=
 | CAdd (q r d eq er : Z)
 | CFrom (x eq er : Z)
 | CSub (q1 r1 q2 r2 e : Z)
 | CCmp (q1 r1 q2 r2 : Z) (res : list bool)   (* ==, !=, <, >, <=, >= *)
 | CInf (eq er : Z)
-| CHeap (times : list (Z * Z)) (order : list nat).   (* times pushed to the C heap, order in which they came out *)
+| CHeap (times : list (Z * Z)) (order : list nat)    (* times pushed to the C heap, order in which they came out *)
+| CHist (steps : list hstep) (q2 r2 d : Z)            (* object history, then every operation on the final object *)
+        (eq er : Z) (cmp : list bool) (aq ar s1 s2 : Z).
 
 Definition time_eqb_bits (t : time) (eq er : Z) : bool :=
   feqb_bits (tq t) (of_bits eq) && feqb_bits (tr t) (of_bits er).
@@ -45,4 +67,13 @@ Definition check_tcase (c : tcase) : bool :=
          end) order
       && Nat.eqb (length order) (length times)
       && forallb (fun i => existsb (Nat.eqb i) order) (seq 0 (length times))
+  | CHist steps q2 r2 d eq er cmp aq ar s1 s2 =>
+      (* the object holds the value of the LAST assignment and every operation sees exactly that value *)
+      let a := hist_value steps in
+      let b := mkTime (of_bits q2) (of_bits r2) in
+      time_eqb_bits a eq er
+      && list_beq [time_eq a b; time_ne a b; time_lt a b; time_gt a b; time_le a b; time_ge a b;
+                   time_eq b a; time_ne b a; time_lt b a; time_gt b a; time_le b a; time_ge b a] cmp
+      && time_eqb_bits (time_add a (of_bits d)) aq ar
+      && feqb_bits (time_sub a b) (of_bits s1) && feqb_bits (time_sub b a) (of_bits s2)
   end.
